@@ -334,7 +334,7 @@ func (check typecheck) binaryExpr(n *node) error {
 	// for && and ||, an operand of type bool is therefore tolerated with an operand of a defined boolean type.
 	boolMix := (a == aLand || a == aLor) && isBool(c0.typ) && isBool(c1.typ) && (c0.typ.cat == boolT || c1.typ.cat == boolT)
 
-	if !c0.typ.equals(c1.typ) && !boolMix {
+	if (!c0.typ.equals(c1.typ) || isInterface(c0.typ) != isInterface(c1.typ)) && !boolMix {
 		return n.cfgErrorf("invalid operation: mismatched types %s and %s", c0.typ.id(), c1.typ.id())
 	}
 
